@@ -70,7 +70,10 @@ def configs(tier, base_seed):
     """Deterministic list of configurations for the enumeration layers."""
     out = []
     if tier == "quick":
-        combos = [("ext_uuid", 9, False, True, "short"), ("inside", 3, True, False, "default")]
+        # external temp dirs: with {uuid} for even seeds, without for odd ones (a repeat
+        # then meets the leftovers of the aborted run under the same names)
+        ext = "ext_uuid" if base_seed % 2 == 0 else "ext_plain"
+        combos = [(ext, 9, False, True, "short"), ("inside", 3, True, False, "default")]
     else:
         combos = []
         for temp in e1.TEMP_MODES:
